@@ -38,7 +38,7 @@ def build_demo(wt, demo, exe):
 
 def run_demo(wt, demo, exe):
     if demo.endswith(".sh"):
-        p = sh(["bash", demo, wt], cwd=wt, timeout=600, env=dict(os.environ, TREE=wt, WT=wt, WORKTREE=wt, SKINNY_ROOT=wt, ROOT=wt))
+        p = sh(["bash", demo, wt], cwd=wt, timeout=600, env=dict(os.environ, TREE=wt, WT=wt, WORKTREE=wt, SKINNY_ROOT=wt, ROOT=wt, SRC=wt))
     else:
         b = build_demo(wt, demo, exe)
         if b.returncode != 0:
